@@ -7,7 +7,7 @@ CONSTANTS
   ValSet = {1, 2}
   TTLSet = {0, 1, 2}
   SizeSet = {0, 1, 2, 3}
-  DTTLSet = {0, 1, 2}
+  DTTLSet = {2}
   TickSet = {1, 2}
 INVARIANTS TypeOK Conforms Sane ContractShape MemShape ExpiredAsAbsent Agree
 PROPERTIES Consumed
